@@ -562,7 +562,7 @@ func init() {
 			"the tree dictated by the precedence table (or both report an error, with the static error class compared); non-trivial when a tree is produced",
 		Assumptions: []string{
 			"unary minus is not ranked by the statement and is not generated",
-			"chains longer than 4 operators are outside the bound",
+			"chains longer than 4 operators are enumerated without parentheses only (5: all operators, 6: one operator per binding level); longer ones are outside the bound",
 		},
 		Phases: []explore.Phase{
 			{Name: "chains", Quick: []int{1, 2, 3}, Thorough: []int{1, 2, 3, 4}, Run: func(c *explore.Chooser, x *explore.Ctx, n int) {
@@ -597,6 +597,21 @@ func init() {
 					toks = c04InsertParens(toks, o, e)
 				}
 				c04Compare(x, toks, ws)
+			}},
+			{Name: "long-bare-chains", Thorough: []int{5, 6}, ShardDepth: 3, Run: func(c *explore.Chooser, x *explore.Ctx, n int) {
+				// longer chains without parentheses: all 24^5 operator tuples; for 6 operators one operator per
+				// binding level (and both associativities)
+				pool := c04Ops
+				if n >= 6 {
+					pool = []string{".", "[", "*", "+", "&", "=", "<", "in", "^", "~>", "and", "or", "?:", ":="}
+				}
+				ops := make([]string, n)
+				for i := range ops {
+					ops[i] = pool[c.Choose(len(pool))]
+				}
+				c.Done()
+				toks, _, _ := c04Chain(ops, []int{0}, false)
+				c04Compare(x, toks, 0)
 			}},
 			{Name: "regex-or-division", Quick: []int{1}, ShardDepth: 1, Run: func(c *explore.Chooser, x *explore.Ctx, _ int) {
 				// where an operand is expected "/" starts a regex; after an operand it divides
